@@ -6,7 +6,7 @@ import ast
 from . import dg_rules as dg
 from . import core_folds as cf
 
-EXPLANATION = '(R1) Datagroup and Dataset interpreted over finite histories of set, delete, pop, get, update, clear, copy, iteration, membership, len: dictionary behaviour, shape/type gates, every stored item renamed (and parented); (R2) indexing/sorting keep members aligned and named; (R3) Datagroup.__eq__ over abstract cases: equal iff same keys and no element of any member differs (Vectors by components, not by norm); (R4) Array.to exact (shared). (R3) also folds Datagroup.__eq__ on the real class over insertion orders and key sets. (R5) the norm that reduces Vector members in __eq__ is defined for boolean components; Dataset overwrite keeps key order; members named like constructor parameters survive copy(). R1 histories cover members of another rank, absent keys (pop/del raise KeyError) and views taken before clear(); (R6) Datagroup.__eq__ end to end across units with a buffer edited between comparisons.'
+EXPLANATION = '(R1) Datagroup and Dataset interpreted over finite histories of set, delete, pop, get, update, clear, copy, iteration, membership, len: dictionary behaviour, shape/type gates, every stored item renamed (and parented); (R2) indexing/sorting keep members aligned and named; (R3) Datagroup.__eq__ over abstract cases: equal iff same keys and no element of any member differs (Vectors by components, not by norm); (R4) Array.to exact (shared). (R3) also folds Datagroup.__eq__ on the real class over insertion orders and key sets. (R5) the norm that reduces Vector members in __eq__ is defined for boolean components; Dataset overwrite keeps key order; members named like constructor parameters survive copy(). R1 histories cover members of another rank, absent keys (pop/del raise KeyError) and views taken before clear(); (R6) Datagroup.__eq__ end to end across units with a buffer edited between comparisons. R1 histories cover update(mapping, **keywords) order and precedence and metadata filled in place on two datasets.'
 NOT_DECIDED = "numpy's element-wise comparison; insertion order of Python dicts (language guarantee)"
 TRUSTED = ('CPython ast', 'Python dict semantics', 'the interpreter sa/models.py (ModelEval) and its library models')
 
